@@ -4,6 +4,9 @@ def seqs : List (List Char × Nat × Bool × Bool × Bool × Bool × Bool) := [(
 def quoteChars : List Char := ['|', '&', ';', '(', ')', '<', '>']
 def quoteLeft : List Char := ['"']
 def quoteRight : List Char := ['"']
+def multiGuardAccessor : String := "Outputs"
+def zeroGuardAccessor : String := "Outputs"
+def loopAccessor : String := "Outputs"
 def guards : List String := ["!multiple && allOutputs && ep==\"\" && len(dep.Outputs())>1", "!dep.IsBinary && runnable", "len(dep.Outputs())==0 && runnable", "test && tool", "!multiple && allOutputs && ep==\"\" && len(dep.Outputs())==0"]
 def passesChained : Bool := true
 -- skelCheckTail: if p9 { v0, v1 := p0.TargetHasher.OutputHash(p2) if v1 != nil { panic(v1) } return base64.RawURLEncoding.EncodeToString(v0) } ; var v2 strings.Builder ; if p3 == "" { for v3, v4 := range p2.Outputs() { if p11 || v4 == p4 { if p12 && !p0.WillRunRemotely(p1) { v5, v6 := filepath.Abs(handleDir(p2.OutDir(), v4, p7)) if v6 != nil { log.Fatalf("…", v6) } v2.WriteString(quote(v5)) } else { v2.WriteString(quote(fileDestination(p1, p2, v4, p7, p8, p10))) } v2.WriteString(" ") if p7 { break } } } return strings.TrimRight(v2.String(), " ") } ; v7, v8 := p2.EntryPoints[p3] ; if !v8 { log.Fatalf("…", p2, p3) } ; if p12 && !p0.WillRunRemotely(p1) { v9, v10 := filepath.Abs(handleDir(p2.OutDir(), v7, p7)) if v10 != nil { log.Fatalf("…", v10) } return quote(v9) } ; return quote(fileDestination(p1, p2, v7, p7, p8, p10))
@@ -20,4 +23,10 @@ def skelReplaceSequence : String := "afd5d348adc4b747c8325249"
 def skelSplitEntryPoint : String := "b5b316dc012cad63fe35eb00"
 -- skelSourcesOrTools: if p1 { return p0.Tools } ; return p0.AllSources()
 def skelSourcesOrTools : String := "5fbe9d443a4d3f3c2eff30fc"
+-- skelOutputs: var v0 []string ; if target.IsFilegroup { v0 = target.filegroupOutputs(target.AllSources()) } else { v0 = make([]string, len(target.outputs)) copy(v0, target.outputs) } ; if target.namedOutputs != nil { for v1, v2 := range target.namedOutputs { v0 = append(v0, v2...) } } ; sort.Strings(v0) ; return v0
+def skelOutputs : String := "4b57821a9b4fc00d60cb01da"
+-- skelDeclaredOutputs: return target.outputs
+def skelDeclaredOutputs : String := "d158d44f14cc8b60ceb85362"
+-- skelFilegroupOutputs: v0 := make([]string, 0, len(p0)) ; for v1, v2 := range p0 { if v3, v4 := v2.(AnnotatedOutputLabel); v4 { for v5, v6 := range target.DependenciesFor(v3.BuildLabel) { v0 = append(v0, v6.NamedOutputs(v3.Annotation)...) } } else if v7, v8 := v2.nonOutputLabel(); !v8 { v0 = append(v0, v2.LocalPaths(nil)[0]) } else { for v9, v10 := range target.DependenciesFor(v7) { v0 = append(v0, v10.Outputs()...) } } } ; return v0
+def skelFilegroupOutputs : String := "fcf0cbe3ac0d99b28ef9d697"
 end PlzVerif.Generated.C37
